@@ -215,7 +215,7 @@ def main(argv=None):
         path = os.path.join('replays', '%s-%s.json' % (prop, hashlib.sha1(full.encode()).hexdigest()[:10]))
         rec = {'property': prop, 'unit': u.name, 'label': o['label'], 'obligation': full, 'inputs': o['model'], 'solver': o['solver'],
                'solver_secs': o['secs'], 'replay_result': rep}
-        if rep.get('status') == 'ok' and rep.get('fails') and not (rep.get('fails_in_region') and o['meta'].get('finding') in F.ACTIVE):
+        if rep.get('status') in ('ok', 'vacuous') and rep.get('evaluated') and rep.get('fails') and not (rep.get('fails_in_region') and o['meta'].get('finding') in F.ACTIVE):
             json.dump(rec, open(os.path.join(VERIF, path), 'w'), indent=1)
             violations.append((path, full, ''))
         elif full in baseline:
@@ -245,9 +245,9 @@ def main(argv=None):
                 violations.append((path, full, ''))
     known_lines = []
     for k, w in zip(known, conc['witnesses']):
-        if w.get('status') == 'ok' and w.get('evaluated', 0) == 0:
+        if w.get('status') in ('ok', 'vacuous') and w.get('evaluated', 0) == 0:
             errors.append(('known-findings', 'witness %s: its clause %r was never evaluated by unit %s (stale witness or renamed label)' % (k['id'], w['label'], w['unit'])))
-        elif w.get('status') == 'ok' and w.get('fails'):
+        elif w.get('status') in ('ok', 'vacuous') and w.get('fails'):
             known_lines.append('KNOWN-FINDING: property=%s %s [%s]' % (prop, k['what'], k['id']))
         elif w.get('status') in ('error', 'no-such-unit'):
             errors.append(('known-findings', 'witness %s could not be replayed: %s' % (k['id'], w.get('trace', w.get('status')))))
@@ -334,7 +334,7 @@ def do_replay(prop, path):
         return 3
     r = conc['replays'][0]
     print(json.dumps(r, indent=1))
-    if r.get('status') == 'ok' and r.get('fails'):
+    if r.get('status') in ('ok', 'vacuous') and r.get('evaluated') and r.get('fails'):
         print('VIOLATION property=%s replay=%s obligation=%s/%s' % (prop, path, rec['unit'], rec['label']))
         return 1
     print('replay does not fail on the current tree')
